@@ -57,7 +57,13 @@ func main() {
 	out := flag.String("out", ".", "output directory")
 	name := flag.String("name", "SrcPure", "name of the generated Coq file / program")
 	spec := flag.String("spec", "crc.go:*;encoding.go:*", "file:func,func;file:* ...")
+	world := flag.String("world", "", "comma separated functions whose external calls thread a state value")
 	flag.Parse()
+	for _, w := range strings.Split(*world, ",") {
+		if w = strings.TrimSpace(w); w != "" {
+			worldFns[w] = true
+		}
+	}
 
 	fset = token.NewFileSet()
 	pkgs, err := parser.ParseDir(fset, *repo, func(fi os.FileInfo) bool {
@@ -402,6 +408,8 @@ type ftr struct {
 	structOrder map[types.Object][]int        // the same slots in field order
 	readonly map[types.Object]bool           // struct parameters other than the receiver: fields may only be read
 	nilSlot  map[types.Object]int            // pointer-to-struct locals and results: slot of the nil flag
+	world    int                             // slot of the world value (-1: none)
+	opaque   map[types.Object]string         // interface-typed parameters: calls on them are external functions <type>.<Method>
 	hoisted  map[*ast.CallExpr]int           // method call hoisted out of an expression -> temporary slot holding its result
 	pre      []string                        // statements to run before the statement being translated (hoisted calls)
 	names    []string              // slot -> name
@@ -435,6 +443,10 @@ func zeroVal(ty types.Type) (string, bool) {
 		}
 		if u.Info()&types.IsBoolean != 0 {
 			return "VB false", true
+		}
+		if u.Info()&types.IsString != 0 {
+			// strings are opaque scalars: they can be stored, passed on and compared for equality only
+			return "VN 0", true
 		}
 	case *types.Slice:
 		if _, ok := zeroVal(u.Elem()); ok {
@@ -506,6 +518,12 @@ func (t *ftr) expandPtr(obj types.Object, name string, st *types.Struct) []int {
 	t.nilSlot[obj] = n
 	return append([]int{n}, t.expandStruct(obj, name, st)...)
 }
+
+// functions in which every external (oracle) call takes and returns one extra
+// value, the state of the outside world (peer streams, the user's handler):
+// the function itself gets that value as its last parameter and returns it as
+// its last out
+var worldFns = map[string]bool{}
 
 // does the body of a method mention its receiver at all
 var recvUsed = map[string]bool{}
@@ -616,7 +634,7 @@ func isFloat(ty types.Type) bool {
 
 func translateFn(q string, fd *ast.FuncDecl, globalsUsed map[string]bool) *fnOut {
 	t := &ftr{slots: map[types.Object]int{}, structs: map[types.Object]map[string]int{}, structOrder: map[types.Object][]int{},
-		readonly: map[types.Object]bool{}, nilSlot: map[types.Object]int{}, hoisted: map[*ast.CallExpr]int{}, globals: globalsUsed, calls: map[string]bool{}}
+		readonly: map[types.Object]bool{}, nilSlot: map[types.Object]int{}, world: -1, opaque: map[types.Object]string{}, hoisted: map[*ast.CallExpr]int{}, globals: globalsUsed, calls: map[string]bool{}}
 	out := &fnOut{name: q}
 	// receiver: a method that mentions its receiver gets one slot per field of
 	// basic / slice-of-basic type (returned as outs when the receiver is a
@@ -651,6 +669,12 @@ func translateFn(q string, fd *ast.FuncDecl, globalsUsed map[string]bool) *fnOut
 			} else if st, _, ok := expandable(obj.Type()); ok {
 				t.expandStruct(obj, n.Name, st)
 				t.readonly[obj] = true
+			} else if nt, isNamed := obj.Type().(*types.Named); isNamed {
+				if _, isIface := nt.Underlying().(*types.Interface); isIface && worldFns[q] {
+					t.opaque[obj] = nt.Obj().Name()
+				} else {
+					t.structs[obj] = nil
+				}
 			} else {
 				t.structs[obj] = nil
 			}
@@ -658,6 +682,11 @@ func translateFn(q string, fd *ast.FuncDecl, globalsUsed map[string]bool) *fnOut
 		if len(p.Names) == 0 {
 			t.bad = append(t.bad, "unnamed parameter")
 		}
+	}
+	if worldFns[q] {
+		t.world = len(t.names)
+		t.names = append(t.names, "$world")
+		t.zero = append(t.zero, "VN 0")
 	}
 	t.nparams = len(t.names)
 	if fd.Type.Results != nil {
@@ -711,6 +740,9 @@ func translateFn(q string, fd *ast.FuncDecl, globalsUsed map[string]bool) *fnOut
 	}
 	if len(t.bad) > 0 {
 		body = fmt.Sprintf("SUnsupported %s", coqStr(strings.Join(t.bad, "; ")))
+	}
+	if t.world >= 0 {
+		out.outs = append(out.outs, t.world)
 	}
 	out.nparams = t.nparams
 	out.zeros = t.zero[t.nparams:]
@@ -842,6 +874,35 @@ func (t *ftr) sliceSlot(e ast.Expr) (int, bool) {
 
 // the values an argument contributes to a call: itself, or the fields of an expanded struct variable
 func (t *ftr) flatArg(e ast.Expr) ([]string, bool) {
+	if u, isU := ast.Unparen(e).(*ast.UnaryExpr); isU && u.Op == token.AND {
+		if cl, isCL := u.X.(*ast.CompositeLit); isCL {
+			if st, _, ok := expandable(info.Types[cl].Type); ok {
+				vals := map[string]string{}
+				for _, el := range cl.Elts {
+					kv, ok := el.(*ast.KeyValueExpr)
+					if !ok {
+						return nil, false
+					}
+					k, ok := kv.Key.(*ast.Ident)
+					if !ok {
+						return nil, false
+					}
+					vals[k.Name] = t.expr(kv.Value)
+				}
+				var r []string
+				for i := 0; i < st.NumFields(); i++ {
+					f := st.Field(i)
+					if v, given := vals[f.Name()]; given {
+						r = append(r, v)
+					} else {
+						z, _ := zeroVal(f.Type())
+						r = append(r, zeroExpr(z))
+					}
+				}
+				return r, true
+			}
+		}
+	}
 	if obj, ok := t.structVar(e); ok {
 		order := t.structOrder[obj]
 		var r []string
@@ -920,6 +981,13 @@ func (t *ftr) oracleCall(c *ast.CallExpr) (string, bool) {
 	sel, ok := c.Fun.(*ast.SelectorExpr)
 	if !ok {
 		return "", false
+	}
+	if id, isID := sel.X.(*ast.Ident); isID {
+		if obj := info.Uses[id]; obj != nil {
+			if tn, isOpaque := t.opaque[obj]; isOpaque {
+				return tn + "." + sel.Sel.Name, true
+			}
+		}
 	}
 	inner, ok := sel.X.(*ast.SelectorExpr)
 	if !ok {
@@ -1045,6 +1113,10 @@ func (t *ftr) callParts(c *ast.CallExpr) (name string, args []string, recvDests 
 		t.calls[name] = true
 	} else if n, isO := t.oracleCall(c); isO {
 		name = n
+		if t.world >= 0 {
+			args = append(args, fmt.Sprintf("EVar %d", t.world))
+			recvDests = []string{fmt.Sprintf("LVar %d", t.world)}
+		}
 	} else if id, isID := c.Fun.(*ast.Ident); isID {
 		fobj, isF := info.Uses[id].(*types.Func)
 		if !isF || fobj.Pkg() != pkg {
@@ -1363,9 +1435,6 @@ func (t *ftr) stmt1(s ast.Stmt) string {
 					return unsupS("fallthrough", s)
 				}
 			}
-			if containsBranch(cc.Body) {
-				return unsupS("break/continue/goto in a switch", s)
-			}
 			body := t.block(cc.Body)
 			if cc.List == nil {
 				def = body
@@ -1389,12 +1458,19 @@ func (t *ftr) stmt1(s ast.Stmt) string {
 		for i := len(clauses) - 1; i >= 0; i-- {
 			res = fmt.Sprintf("SIf (%s)\n(%s)\n(%s)", clauses[i].cond, clauses[i].body, res)
 		}
+		// a break inside a case leaves the switch
+		hasBreak := false
+		for _, c := range x.Body.List {
+			if containsBranch(c.(*ast.CaseClause).Body) {
+				hasBreak = true
+			}
+		}
+		if hasBreak {
+			res = "SBlock (" + res + ")"
+		}
 		parts = append(parts, res)
 		return seq(parts)
 	case *ast.ForStmt:
-		if containsBranch(x.Body.List) {
-			return unsupS("break/continue/goto in a loop", s)
-		}
 		var parts []string
 		if x.Init != nil {
 			parts = append(parts, t.stmt(x.Init))
@@ -1410,9 +1486,6 @@ func (t *ftr) stmt1(s ast.Stmt) string {
 		parts = append(parts, fmt.Sprintf("SFor (%s)\n(%s)\n(%s)", cond, post, t.block(x.Body.List)))
 		return seq(parts)
 	case *ast.RangeStmt:
-		if containsBranch(x.Body.List) {
-			return unsupS("break/continue/goto in a loop", s)
-		}
 		if _, ok := info.Types[x.X].Type.Underlying().(*types.Slice); !ok {
 			return unsupS("range over a non-slice", s)
 		}
@@ -1445,12 +1518,33 @@ func (t *ftr) stmt1(s ast.Stmt) string {
 			es = append(es, t.expr(r))
 		}
 		return fmt.Sprintf("SReturn (%s)", exprList(es))
+	case *ast.BranchStmt:
+		if x.Label != nil {
+			return unsupS("labelled branch", s)
+		}
+		switch x.Tok {
+		case token.BREAK:
+			return "SBreak"
+		case token.CONTINUE:
+			return "SContinue"
+		}
+		return unsupS("branch statement", s)
 	}
 	return unsupS(fmt.Sprintf("statement %T", s), s)
 }
 
 // p = &T{k: v, ...} for an expanded pointer variable p: all operands first, then the stores
 func (t *ftr) addrLit(rhs ast.Expr, obj types.Object, ns int) (string, bool) {
+	if id, isID := ast.Unparen(rhs).(*ast.Ident); isID && id.Name == "nil" {
+		// p = nil: the nil flag is set, the fields take their zero values
+		ls := []string{fmt.Sprintf("LVar %d", ns)}
+		es := []string{"EB true"}
+		for _, sl := range t.structOrder[obj] {
+			ls = append(ls, fmt.Sprintf("LVar %d", sl))
+			es = append(es, zeroExpr(t.zero[sl]))
+		}
+		return fmt.Sprintf("SSetMulti [%s] (%s)", strings.Join(ls, "; "), exprList(es)), true
+	}
 	u, ok := ast.Unparen(rhs).(*ast.UnaryExpr)
 	if !ok || u.Op != token.AND {
 		return "", false
@@ -2210,6 +2304,50 @@ func aliasCheck(fd *ast.FuncDecl, t *ftr) string {
 		return true
 	})
 	wholeUse := map[types.Object]bool{}
+	// uses of a whole struct variable that create no alias a later store could be seen through:
+	// comparison with nil, being assigned to, and being handed to an external function (which is a
+	// function of the argument VALUES by hypothesis - it is not modelled as retaining the storage)
+	harmless := map[*ast.Ident]bool{}
+	ast.Inspect(fd.Body, func(n ast.Node) bool {
+		switch x := n.(type) {
+		case *ast.BinaryExpr:
+			if x.Op == token.EQL || x.Op == token.NEQ {
+				for _, pair := range [][2]ast.Expr{{x.X, x.Y}, {x.Y, x.X}} {
+					if id, ok := ast.Unparen(pair[0]).(*ast.Ident); ok {
+						if nid, ok := ast.Unparen(pair[1]).(*ast.Ident); ok && nid.Name == "nil" {
+							harmless[id] = true
+						}
+					}
+				}
+			}
+		case *ast.AssignStmt:
+			for _, l := range x.Lhs {
+				if id, ok := l.(*ast.Ident); ok {
+					harmless[id] = true
+				}
+			}
+		case *ast.CallExpr:
+			if _, isO := t.oracleCall(x); isO {
+				for _, a := range x.Args {
+					if id, ok := ast.Unparen(a).(*ast.Ident); ok {
+						harmless[id] = true
+					}
+				}
+			}
+			if t.ignorable(x) {
+				// logging: the arguments are only formatted
+				for _, a := range x.Args {
+					ast.Inspect(a, func(m ast.Node) bool {
+						if id, ok := m.(*ast.Ident); ok {
+							harmless[id] = true
+						}
+						return true
+					})
+				}
+			}
+		}
+		return true
+	})
 	ast.Inspect(fd.Body, func(n ast.Node) bool {
 		switch x := n.(type) {
 		case *ast.SelectorExpr:
@@ -2217,7 +2355,13 @@ func aliasCheck(fd *ast.FuncDecl, t *ftr) string {
 				return false // a field selection, not a use of the whole variable
 			}
 		case *ast.Ident:
-			if obj, ok := t.structVar(x); ok {
+			if _, isDef := info.Defs[x]; isDef {
+				return true
+			}
+			if obj, ok := t.structVar(x); ok && !harmless[x] {
+				if os.Getenv("GOSRC_DEBUG") != "" {
+					fmt.Fprintln(os.Stderr, "whole use of", x.Name, "at", fset.Position(x.Pos()))
+				}
 				wholeUse[obj] = true
 			}
 		}
